@@ -37,10 +37,13 @@ Definition ccase_ok (c : ccase) : bool :=
   | CEscapedPath path raw res => beq (escaped_path path raw) res
   | CRewrite text chipat resolved =>
     let (p, n) := rewrite_pattern text in
+    (* ResolvePattern reads chi's Context.RoutePattern() (which folds "/*/" and trims a trailing
+       '/') and looks THAT up in the table, whose key is the pattern as given to chi *)
+    let rp := route_pattern {| rpats := [p]; ukeys := []; uvals := []; mna := false |} in
     beq p chipat
     && beq (match n with
-            | Some n => firstn (length p - 2) p ++ slash :: lbrace :: star :: n ++ [rbrace]
-            | None => p
+            | Some n => if beq rp p then firstn (length rp - 2) rp ++ slash :: lbrace :: star :: n ++ [rbrace] else rp
+            | None => rp
             end) resolved
   end.
 
